@@ -12,6 +12,7 @@ import (
 	"fmt"
 	"sync"
 
+	"github.com/btcsuite/btcd/wire"
 	"github.com/lightninglabs/pool/account"
 )
 
@@ -21,8 +22,13 @@ func lcStoreRace(r *Run) {
 	k := e.accts[1]
 	base := &account.Account{
 		Value: 500000, Expiry: 5000, TraderKey: k.key, AuctioneerKey: lcAuctKey, BatchKey: lcBatchKey,
-		Secret: lcSecret, State: account.StateInitiated, HeightHint: 1, Version: account.VersionTaprootEnabled,
+		Secret: lcSecret, State: account.StateOpen, HeightHint: 1, Version: account.VersionTaprootEnabled,
 	}
+	ftx := wire.NewMsgTx(2)
+	ftx.AddTxIn(&wire.TxIn{Witness: wire.TxWitness{[]byte{1}, []byte{2}}})
+	ftx.AddTxOut(&wire.TxOut{Value: 500000, PkScript: lcP2WKH})
+	base.LatestTx = ftx
+	base.OutPoint = wire.OutPoint{Hash: ftx.TxHash(), Index: 0}
 	if err := e.db.AddAccount(base); err != nil {
 		r.Violate("AddAccount: "+err.Error(), "C08/harness", nil)
 		return
@@ -42,7 +48,7 @@ func lcStoreRace(r *Run) {
 		a1, a2 := cur.Copy(), cur.Copy()
 		st := account.StateExpired
 		if i%2 == 1 {
-			st = account.StateInitiated
+			st = account.StateOpen
 		}
 		hint, val := uint32(1000+i), cur.Value+1
 		var wg sync.WaitGroup
